@@ -245,21 +245,32 @@ theorem fullMatch_items_anchC (i ns ne : Bool) (its : List Pat) (hf : ∀ p ∈ 
     rw [← denC_catList i]
     exact fullMatch_iffC i (catList its) (fragC_catList _ hf) s
 
-/-- **the printed `-r` pattern, exactly, with any combination of the two anchors** (plain printing): the text is accepted by the model of
-`Regex::new`, and the compiled pattern matches a string of scalar values in full iff a label sequence of the expression spells it -/
-theorem printed_exactAR (cap esc ns ne : Bool) (e : Expr) (hwf : e.WFS) (s : Str) (hs : ∀ c ∈ s, Scalar c) :
-    ∃ P, Spec.parse (fmtRegExp (cfgAnch cap esc ns ne) e) = some (⟨false, false⟩, P) ∧
-      (Spec.fullMatch false P s = true ↔ e.strLangR s) := by
+theorem flags_printedAR (cap esc ns ne : Bool) (e : Expr) (hwf : e.WFR) :
+    parseFlags (fmtRegExp (cfgAnch cap esc ns ne) e) = (⟨false, false⟩, fmtRegExp (cfgAnch cap esc ns ne) e) := by
+  rw [fmtRegExp_anch]
+  cases ns with
+  | false => simp [preT, parseFlags]
+  | true =>
+    simp only [preT, ite_true, List.nil_append]
+    apply parseFlags_safe _ (body_safeR cap esc e hwf)
+    cases ne <;> simp [postT]
+
+/-- **the printed `-r` pattern, exactly, with any combination of the two anchors and `(?i)`** (plain printing): the text is accepted by
+the model of `Regex::new`, and the compiled pattern matches a string of scalar values in full iff a label sequence of the expression
+spells it -/
+theorem printed_exactAR (i cap esc ns ne : Bool) (e : Expr) (hwf : e.WFS) (s : Str) (hs : ∀ c ∈ s, Scalar c) :
+    ∃ P, Spec.parse (ciPrefix i ++ fmtRegExp (cfgAnch cap esc ns ne) e) = some (⟨i, false⟩, P) ∧
+      (Spec.fullMatch i P s = true ↔ e.strLangR i s) := by
   have hwr := Expr.WFS.toWFR e hwf
-  refine ⟨_, parse_printedAR cap esc ns ne e hwr, ?_⟩
+  refine ⟨_, parse_ci_prefixG _ _ (flags_printedAR cap esc ns ne e hwr) (parse_printedAR cap esc ns ne e hwr) i, ?_⟩
   have hfr := Expr.bothR_fragC cap esc e hwr
-  have hd := Expr.bothR_den cap esc e hwf s hs
+  have hd := Expr.bothR_den i cap esc e hwf s hs
   have hitems : ∀ p ∈ topItemsR cap esc e, p.FragC := by
     unfold topItemsR
     split
     · intro p hp; simp only [List.mem_singleton] at hp; subst hp; exact hfr.2
     · exact hfr.1
-  rw [fullMatch_items_anchC false ns ne _ hitems]
+  rw [fullMatch_items_anchC i ns ne _ hitems]
   unfold topItemsR
   cases ha : e.isAlt with
   | true => simp only [ite_true, denLC_single, Pat.denC]; exact hd.2
